@@ -154,6 +154,21 @@ def pre_snapshot(self, names, env):
   return out
 
 
+def add_hints(self, hints, env, extra):
+  """instantiation hints: ground terms offered to e-matching through a fresh uninterpreted predicate"""
+  from .symexec import Env as _Env
+  e = _Env(env)
+  for k, v in extra.items():
+    e.set(k, v)
+  for h in hints:
+    try:
+      hv = self.lift(self.eval_spec_value(h, e))
+    except OutsideSubset:
+      continue
+    hp = z3.Function('hint!' + hv.sort.name, hv.sort.z3(), z3.BoolSort())
+    self.assume(hp(hv.t))
+
+
 def bind_target(self, tg, v, env):
   self.assign(tg, v, env)
 
@@ -194,7 +209,11 @@ def s_For(self, st, env):
   which = self.choose([('iter', n > 0), ('exit', None)], f'loop{lid}')
   ghost.update(pre_snapshot(self, mod, env))
   havoc(self, mod - target_names(st.target), env)
-  self.havoc_heap(st.body)
+  for key, f in self.frame_formulas():
+    self.oblige(f, f'inv-init[{lid}.frame.{key[0]}.{key[1]}]')
+  hkeys = self.havoc_heap(st.body)
+  for key, f in self.frame_formulas(hkeys):
+    self.assume(f)  # auto-frame invariant: cells outside the function's modifies set keep their entry value
   if which == 'iter':
     k = z3.Int(fresh_name('k'))
     self.assume(z3.And(k >= 0, k < n))
@@ -209,8 +228,11 @@ def s_For(self, st, env):
     except BreakEx:
       return  # continue after the loop, skipping orelse, with the state at the break
     ghost.update({'_k': SV(INT, k + 1), f'_k{lid}': SV(INT, k + 1)})
+    add_hints(self, (getattr(self.spec, 'inv_hints', None) or {}).get(lid, ()), env, ghost)
     for i, g in enumerate(eval_clauses(self, invs, env, ghost)):
       self.oblige(g, f'inv-step[{lid}.{i}]')
+    for key, f in self.frame_formulas(hkeys):
+      self.oblige(f, f'inv-step[{lid}.frame.{key[0]}.{key[1]}]')
     raise PathEnd()
   ghost.update({'_k': SV(INT, n), f'_k{lid}': SV(INT, n)})
   for g in eval_clauses(self, invs, env, ghost):
@@ -235,7 +257,11 @@ def s_While(self, st, env):
   for i, g in enumerate(eval_clauses(self, invs, env, ghost)):
     self.oblige(g, f'inv-init[{lid}.{i}]')
   havoc(self, mod, env)
-  self.havoc_heap(st.body)
+  for key, f in self.frame_formulas():
+    self.oblige(f, f'inv-init[{lid}.frame.{key[0]}.{key[1]}]')
+  hkeys = self.havoc_heap(st.body)
+  for key, f in self.frame_formulas(hkeys):
+    self.assume(f)
   for g in eval_clauses(self, invs, env, ghost):
     self.assume(g)
   c = self.truthy(self.eval(st.test, env))
@@ -249,6 +275,8 @@ def s_While(self, st, env):
       return
     for i, g in enumerate(eval_clauses(self, invs, env, ghost)):
       self.oblige(g, f'inv-step[{lid}.{i}]')
+    for key, f in self.frame_formulas(hkeys):
+      self.oblige(f, f'inv-step[{lid}.frame.{key[0]}.{key[1]}]')
     if dec:
       d1 = self.coerce(eval_spec_value(self, dec, env), INT).t
       self.oblige(z3.And(d0 >= 0, d1 < d0), f'decreases[{lid}]')
